@@ -107,24 +107,43 @@ Proof.
 Qed.
 
 (* Step A: CallArgs::new + CallArgs::evaluate *)
-Lemma call_evaluate_dup c : dup_names (c_named c) = true -> call_evaluate c = None.
-Proof. intros H. unfold call_evaluate. rewrite explicit_named_spec, H. reflexivity. Qed.
+Lemma explicit_named_app l m : forall acc,
+  explicit_named (l ++ m) acc = match explicit_named l acc with None => None | Some a => explicit_named m a end.
+Proof.
+  induction l as [|[k v] r IH]; intros acc; [reflexivity|]. cbn [app explicit_named].
+  destruct (n_insert acc (norm k) v) as [a o]. destruct o; [reflexivity | apply IH].
+Qed.
 
-Lemma splat_items_spec c : c_pos c ++ splat_items (c_lsplat c) = all_positional c.
-Proof. unfold all_positional, splat_items. destruct (c_lsplat c) as [[]|]; reflexivity. Qed.
+(* the two checked stages (explicit keywords, keywords of a splatted argument list) are one pass *)
+Lemma call_evaluate_alt c :
+  call_evaluate c =
+  match explicit_named (checked_named c) [] with
+  | None => None
+  | Some n => Some (all_positional c, add_map n (c_msplat c))
+  end.
+Proof.
+  unfold call_evaluate, checked_named, all_positional, add_arglist, arglist_pos, splat_items.
+  rewrite explicit_named_app. destruct (explicit_named (c_named c) []) as [n|]; [|reflexivity].
+  destruct (c_asplat c) as [[p kw]|].
+  - destruct (explicit_named kw n); [|reflexivity]. destruct (c_lsplat c) as [[]|]; reflexivity.
+  - cbn [explicit_named]. destruct (c_lsplat c) as [[]|]; reflexivity.
+Qed.
+
+Lemma call_evaluate_dup c : dup_names (checked_named c) = true -> call_evaluate c = None.
+Proof. intros H. rewrite call_evaluate_alt, explicit_named_spec, H. reflexivity. Qed.
 
 Lemma call_evaluate_nodup c : dup_names (all_named c) = false ->
   call_evaluate c = Some (all_positional c, nmap (all_named c)).
 Proof.
-  intros H. unfold call_evaluate. rewrite explicit_named_spec. unfold all_named in *.
+  intros H. rewrite call_evaluate_alt, explicit_named_spec. unfold all_named in *.
   destruct (dup_names_app _ _ H) as (A & B & C). rewrite A.
   assert (E : forall l : list (string * value), existsb (fun kv => has_key [] (norm (fst kv))) l = false)
     by (intros l; induction l as [|x l IHl]; [reflexivity | cbn; exact IHl]).
-  specialize (E (c_named c)).
-  rewrite E. cbn [orb app]. rewrite splat_items_spec. f_equal. f_equal.
+  specialize (E (checked_named c)).
+  rewrite E. cbn [orb app]. f_equal. f_equal.
   unfold add_map, nmap. destruct (c_msplat c) as [kvs|]; [|rewrite app_nil_r; reflexivity].
   rewrite map_app. apply add_map_nodup; [exact B|].
-  intros kv Hi. fold (nmap (c_named c)). rewrite <- has_name_nmap. apply C. exact Hi.
+  intros kv Hi. fold (nmap (checked_named c)). rewrite <- has_name_nmap. apply C. exact Hi.
 Qed.
 
 (* ------------------------------------------------------------------ Step B: FormalArgs::eval *)
@@ -415,7 +434,7 @@ Theorem bind_main s c :
   model_bind s c = spec_bind s c.
 Proof.
   intros Hwf K1 K2 K3. unfold known_K3 in K3. unfold model_bind in *. unfold spec_bind.
-  destruct (dup_names (c_named c)) eqn:DE.
+  destruct (dup_names (checked_named c)) eqn:DE.
   { rewrite (call_evaluate_dup c DE). unfold all_named. rewrite (dup_names_prefix _ _ DE). reflexivity. }
   unfold known_K2 in K2. rewrite DE in K2. cbn [negb andb] in K2.
   rewrite (call_evaluate_nodup c K2) in *. rewrite K2.
@@ -446,18 +465,21 @@ Qed.
 
 (* ------------------------------------------------------------------ refuted witnesses, errors, first @return *)
 Definition sig1 (rest : option string) : sigT := mkSig [("a", None)] rest.
-Lemma refuted_both : let c := mkCall [VInt 1] [("a", VInt 2)] None None in
+Lemma refuted_both : let c := mkCall [VInt 1] [("a", VInt 2)] None None None in
   known_K1 (sig1 (Some "r")) c = true /\ model_bind (sig1 (Some "r")) c <> spec_bind (sig1 (Some "r")) c.
 Proof. split; [reflexivity | vm_compute; discriminate]. Qed.
 Lemma refuted_splat_dup : let s := mkSig [("a", None); ("b", Some (DLit (VInt 0)))] None in
-  let c := mkCall [] [("a", VInt 1)] None (Some [("a", VInt 5)]) in
+  let c := mkCall [] [("a", VInt 1)] None (Some [("a", VInt 5)]) None in
   known_K2 c = true /\ model_bind s c <> spec_bind s c.
 Proof. split; [reflexivity | vm_compute; discriminate]. Qed.
-Lemma refuted_only_named : let c := mkCall [VInt 1] [("r", VInt 2)] None None in
+Lemma refuted_only_named : let c := mkCall [VInt 1] [("r", VInt 2)] None None None in
   known_K3 (sig1 (Some "r")) c = true /\ model_bind (sig1 (Some "r")) c <> spec_bind (sig1 (Some "r")) c.
 Proof. split; [reflexivity | vm_compute; discriminate]. Qed.
 
 (* errors *)
+Lemma resplat_duplicate s c : dup_names (checked_named c) = true -> model_bind s c = BErr.
+Proof. intros H. unfold model_bind. rewrite (call_evaluate_dup c H). reflexivity. Qed.
+
 Lemma too_many s pos nm : s_rest s = None -> (length (s_params s) < length pos + length nm)%nat ->
   formal_eval s pos nm = BErr.
 Proof.
